@@ -29,14 +29,15 @@ verus! {
 /*@include shims/maps.rs @*/
 /*@include shims/sets.rs @*/
 /*@include shims/decimal_attos.rs @*/
+/*@include shims/try_from.rs @*/
 
 pub mod env {
     use vstd::prelude::*;
     use super::decimal::*;
     use super::decimal::Decimal;
     use super::maps::IndexMap;
-    use super::unit::{FungibleResourceManagerError, BucketError, DroppedFungibleBucket,
-        MintFungibleResourceEvent, BurnFungibleResourceEvent};
+    use super::unit::{FungibleResourceManagerError, BucketError, VaultError, DroppedFungibleBucket,
+        MintFungibleResourceEvent, BurnFungibleResourceEvent, LiquidFungibleResource, WithdrawStrategy, VaultFrozenFlag};
 
     // ================================================================================ addresses ==
     /// radix-common/src/types/node_id.rs
@@ -67,7 +68,7 @@ pub mod env {
 
     /// RuntimeError / ApplicationError (radix-engine/src/errors.rs) reduced to what is built here;
     /// `Environment` stands for every error that only the system itself raises (kernel, system, costing ..)
-    pub enum ApplicationError { FungibleResourceManagerError(FungibleResourceManagerError), BucketError(BucketError), Other }
+    pub enum ApplicationError { FungibleResourceManagerError(FungibleResourceManagerError), BucketError(BucketError), VaultError(VaultError), Other }
     pub enum RuntimeError { ApplicationError(ApplicationError), Environment }
 
     // ================================================================================ field API ==
@@ -76,6 +77,9 @@ pub mod env {
     pub type ActorStateHandle = u32;
     /// radix-engine-interface/src/api/mod.rs
     pub const ACTOR_STATE_SELF: ActorStateHandle = 0u32;
+    pub const ACTOR_STATE_OUTER_OBJECT: ActorStateHandle = 1u32;
+    /// a field of the current actor (SELF) or of its outer object (for a vault / bucket: the resource manager)
+    pub type FieldRef = (ActorStateHandle, FieldIndex);
     /// radix-engine-interface/src/api/field_api.rs (bitflags): MUTABLE = 0b0000_0001, read_only() = empty()
     pub struct LockFlags { pub bits: u32 }
     impl LockFlags {
@@ -92,6 +96,11 @@ pub mod env {
     pub open spec fn frm_idx(f: FungibleResourceManagerField) -> FieldIndex {
         match f { FungibleResourceManagerField::Divisibility => I_DIV(), FungibleResourceManagerField::TotalSupply => I_SUPPLY() }
     }
+    /// the two fields when the resource manager is the actor (SELF) ..
+    pub open spec fn F_DIV() -> FieldRef { (0u32, 0u8) }
+    pub open spec fn F_SUPPLY() -> FieldRef { (0u32, 1u8) }
+    /// .. and the divisibility seen from one of its vaults / buckets (OUTER)
+    pub open spec fn O_DIV() -> FieldRef { (1u32, 0u8) }
     impl From<FungibleResourceManagerField> for u8 {
         fn from(f: FungibleResourceManagerField) -> (r: u8) ensures r == frm_idx(f)
         { match f { FungibleResourceManagerField::Divisibility => 0u8, FungibleResourceManagerField::TotalSupply => 1u8 } }
@@ -116,6 +125,54 @@ pub mod env {
         open spec fn from_spec(f: FungibleBucketField) -> u8 { bucket_idx(f) }
     }
 
+    /// `declare_native_blueprint_state!{ blueprint_ident: FungibleVault, fields: { balance, locked_balance, freeze_status } }`
+    pub enum FungibleVaultField { Balance, LockedBalance, FreezeStatus }
+    pub open spec fn vault_idx(f: FungibleVaultField) -> FieldIndex {
+        match f { FungibleVaultField::Balance => 0u8, FungibleVaultField::LockedBalance => 1u8, FungibleVaultField::FreezeStatus => 2u8 }
+    }
+    impl From<FungibleVaultField> for u8 {
+        fn from(f: FungibleVaultField) -> (r: u8) ensures r == vault_idx(f)
+        { match f { FungibleVaultField::Balance => 0u8, FungibleVaultField::LockedBalance => 1u8, FungibleVaultField::FreezeStatus => 2u8 } }
+    }
+    impl vstd::std_specs::convert::FromSpecImpl<FungibleVaultField> for u8 {
+        open spec fn obeys_from_spec() -> bool { true }
+        open spec fn from_spec(f: FungibleVaultField) -> u8 { vault_idx(f) }
+    }
+    /// the container fields when a vault / bucket is the actor: liquid balance, lock table, freeze status (vault only)
+    pub open spec fn C_BAL() -> FieldRef { (0u32, 0u8) }
+    pub open spec fn C_LOCKED() -> FieldRef { (0u32, 1u8) }
+    pub open spec fn V_FREEZE() -> FieldRef { (0u32, 2u8) }
+
+    /// radix-engine-interface vault.rs `bitflags!{ struct VaultFreezeFlags: u32 { WITHDRAW = 1, DEPOSIT = 2, BURN = 4 } }`
+    pub struct VaultFreezeFlags { pub bits: u32 }
+    impl VaultFreezeFlags {
+        pub const WITHDRAW: VaultFreezeFlags = VaultFreezeFlags { bits: 1 };
+        pub const DEPOSIT: VaultFreezeFlags = VaultFreezeFlags { bits: 2 };
+        pub const BURN: VaultFreezeFlags = VaultFreezeFlags { bits: 4 };
+        /// bitflags `intersects`: some flag in common
+        pub fn intersects(&self, other: VaultFreezeFlags) -> (r: bool) ensures r == ((self.bits & other.bits) != 0) { (self.bits & other.bits) != 0 }
+    }
+
+    /// events/fungible_vault.rs (macro generated `define_events!`): one Decimal each
+    pub mod fungible_vault {
+        use super::super::decimal::Decimal;
+        pub struct WithdrawEvent { pub amount: Decimal }
+        pub struct DepositEvent { pub amount: Decimal }
+    }
+    pub mod events { pub use super::fungible_vault; }
+    impl EventGhost for fungible_vault::WithdrawEvent { open spec fn ghost(&self) -> EventG { EventG::Withdraw(self.amount) } }
+    impl EventGhost for fungible_vault::DepositEvent { open spec fn ghost(&self) -> EventG { EventG::Deposit(self.amount) } }
+
+    /// `<Decimal as ForWithdrawal>::for_withdrawal` (radix-engine-interface resource/mod.rs; under contract in unit
+    /// c25_rounding): `Exact` returns the amount itself, `Rounded(mode)` is `checked_round(divisibility, mode)`.
+    /// Only the Exact case is specified here: whatever amount comes out is the amount that is withdrawn.
+    impl Decimal {
+        #[verifier::external_body]
+        pub fn for_withdrawal(&self, divisibility: u8, withdraw_strategy: WithdrawStrategy) -> (r: Option<Decimal>)
+            ensures withdraw_strategy is Exact ==> r == Some(*self)
+        { unimplemented!() }
+    }
+
     /// the `features:` of the same macro invocation.  `feature_name()` is `stringify!(<property name>)`: five
     /// distinct strings, so the name determines the feature (`feature_of`, uninterpreted inverse).
     pub enum FungibleResourceManagerFeature { TrackTotalSupply, VaultFreeze, VaultRecall, Mint, Burn }
@@ -127,27 +184,22 @@ pub mod env {
 
     // ================================================================================ ghost heap ==
     /// ghost value of a field (of the resource manager, or of a bucket object)
-    pub enum GhostVal { Divisibility(u8), Supply(Decimal), Liquid(Decimal), Locked(Map<Decimal, usize>), Other }
+    pub enum GhostVal { Divisibility(u8), Supply(Decimal), Liquid(Decimal), Locked(Map<Decimal, usize>), Frozen(VaultFrozenFlag), Other }
     /// a live (heap) object: its blueprint name and fields
     pub ghost struct ObjG { pub blueprint: Seq<char>, pub fields: Map<FieldIndex, GhostVal> }
-    pub enum EventG { Mint(Decimal), Burn(Decimal), Other }
+    pub enum EventG { Mint(Decimal), Burn(Decimal), Withdraw(Decimal), Deposit(Decimal), Other }
     pub ghost struct State {
-        /// fields of the current actor (SELF = the resource manager)
-        pub fields: Map<FieldIndex, GhostVal>,
+        /// fields of the current actor (SELF) and of its outer object
+        pub fields: Map<FieldRef, GhostVal>,
         /// open field handles -> (field, opened MUTABLE)
-        pub handles: Map<FieldHandle, (FieldIndex, bool)>,
-        /// features the resource manager was instantiated with (immutable)
-        pub features: Set<FungibleResourceManagerFeature>,
+        pub handles: Map<FieldHandle, (FieldRef, bool)>,
+        /// features the actor / its outer object were instantiated with (immutable)
+        pub features: Set<(ActorStateHandle, FungibleResourceManagerFeature)>,
         /// live objects owned by the current call frame (buckets)
         pub objects: Map<NodeId, ObjG>,
         /// application events emitted so far
         pub events: Seq<EventG>,
     }
-    /// which kind of value the two resource manager fields hold (established by `create_object`)
-    pub open spec fn kind_ok(idx: FieldIndex, g: GhostVal) -> bool {
-        (idx == I_DIV() ==> g is Divisibility) && (idx == I_SUPPLY() ==> g is Supply)
-    }
-
     /// spec view of a typed payload (stands for ScryptoEncode / ScryptoDecode of the payload type)
     pub trait VerifPayload: Sized {
         spec fn accepts(v: GhostVal) -> bool;
@@ -187,10 +239,10 @@ pub mod env {
         spec fn state(&self) -> State;
 
         fn actor_open_field(&mut self, object_handle: ActorStateHandle, field: FieldIndex, flags: LockFlags) -> (r: Result<FieldHandle, E>)
-            requires object_handle == ACTOR_STATE_SELF
+            requires object_handle == ACTOR_STATE_SELF || object_handle == ACTOR_STATE_OUTER_OBJECT
             ensures
                 r matches Ok(h) ==> !old(self).state().handles.contains_key(h)
-                    && final(self).state() == (State { handles: old(self).state().handles.insert(h, (field, is_mutable(flags))), ..old(self).state() }),
+                    && final(self).state() == (State { handles: old(self).state().handles.insert(h, ((object_handle, field), is_mutable(flags))), ..old(self).state() }),
                 r is Err ==> final(self).state() == old(self).state(),
                 r matches Err(e) ==> !e.is_application_error();
 
@@ -208,7 +260,6 @@ pub mod env {
             requires
                 old(self).state().handles.contains_key(handle),
                 old(self).state().handles[handle].1,
-                kind_ok(old(self).state().handles[handle].0, substate.ghost()),
             ensures
                 r is Ok ==> final(self).state() == (State { fields: old(self).state().fields.insert(old(self).state().handles[handle].0, substate.ghost()), ..old(self).state() }),
                 r is Err ==> final(self).state() == old(self).state(),
@@ -221,12 +272,12 @@ pub mod env {
                 r is Err ==> final(self).state() == old(self).state(),
                 r matches Err(e) ==> !e.is_application_error();
 
-        /// is the named feature one the actor (the resource manager) was instantiated with
+        /// is the named feature one the actor / its outer object (the resource manager) was instantiated with
         fn actor_is_feature_enabled(&mut self, object_handle: ActorStateHandle, feature: &str) -> (r: Result<bool, E>)
-            requires object_handle == ACTOR_STATE_SELF
+            requires object_handle == ACTOR_STATE_SELF || object_handle == ACTOR_STATE_OUTER_OBJECT
             ensures
                 final(self).state() == old(self).state(),
-                r matches Ok(b) ==> b == old(self).state().features.contains(feature_of(feature@)),
+                r matches Ok(b) ==> b == old(self).state().features.contains((object_handle, feature_of(feature@))),
                 r matches Err(e) ==> !e.is_application_error();
 
         /// creates a new object of an inner blueprint of this package with the given fields; its id is fresh
@@ -267,6 +318,24 @@ pub mod env {
     impl FungibleResourceManagerTotalSupplyFieldPayload {
         pub fn fully_update_and_into_latest_version(self) -> (r: Decimal) ensures r == self.content { self.content }
         pub fn from_content_source(c: Decimal) -> (r: Self) ensures r.content == c { Self { content: c } }
+    }
+
+    pub struct FungibleVaultBalanceFieldPayload { pub content: LiquidFungibleResource }
+    impl VerifPayload for FungibleVaultBalanceFieldPayload {
+        open spec fn accepts(v: GhostVal) -> bool { v is Liquid }
+        open spec fn ghost(&self) -> GhostVal { GhostVal::Liquid(self.content.amount) }
+    }
+    impl FungibleVaultBalanceFieldPayload {
+        pub fn fully_update_and_into_latest_version(self) -> (r: LiquidFungibleResource) ensures r == self.content { self.content }
+        pub fn from_content_source(c: LiquidFungibleResource) -> (r: Self) ensures r.content == c { Self { content: c } }
+    }
+    pub struct FungibleVaultFreezeStatusFieldPayload { pub content: VaultFrozenFlag }
+    impl VerifPayload for FungibleVaultFreezeStatusFieldPayload {
+        open spec fn accepts(v: GhostVal) -> bool { v is Frozen }
+        open spec fn ghost(&self) -> GhostVal { GhostVal::Frozen(self.content) }
+    }
+    impl FungibleVaultFreezeStatusFieldPayload {
+        pub fn fully_update_and_into_latest_version(self) -> (r: VaultFrozenFlag) ensures r == self.content { self.content }
     }
 
     /// radix-native-sdk Runtime::emit_event -> api.actor_emit_event: appends to the event log, touches nothing else
@@ -319,7 +388,7 @@ pub mod unit {
     use super::decimal_attos::*;
     use super::env::*;
     use vstd::arithmetic::power::pow;
-    broadcast use {group_decimal, group_sets, group_i192};
+    broadcast use {group_decimal, group_sets, group_i192, super::try_from::axiom_question_mark_calls_from};
 
     /*@item radix-engine-interface/src/blueprints/resource/resource.rs :: enum ResourceError
     @derive
@@ -327,6 +396,33 @@ pub mod unit {
     /*@item radix-engine/src/blueprints/resource/bucket_common.rs :: enum BucketError
     @derive
     @*/
+    /*@item radix-engine/src/blueprints/resource/vault_common.rs :: enum VaultError
+    @derive
+    @*/
+    /*@item radix-common/src/math/rounding_mode.rs :: enum RoundingMode
+    @derive Clone, Copy
+    @*/
+    /*@item radix-engine-interface/src/blueprints/resource/mod.rs :: enum WithdrawStrategy
+    @derive Clone, Copy
+    @*/
+    /*@item radix-engine-interface/src/blueprints/resource/resource.rs :: struct VaultFrozenFlag
+    @derive
+    @*/
+    // `Result::unwrap` (the R5 image of `.expect(..)`) needs `E: Debug`; formatting is not under contract.
+    #[verifier::external]
+    impl core::fmt::Debug for ResourceError {
+        fn fmt(&self, f: &mut core::fmt::Formatter<'_>) -> core::fmt::Result { f.write_str("ResourceError") }
+    }
+    impl From<BucketError> for RuntimeError {
+        /*@fn radix-engine/src/blueprints/resource/bucket_common.rs :: impl From<BucketError> for RuntimeError :: fn from
+        @sig
+            ensures ret == RuntimeError::ApplicationError(ApplicationError::BucketError(bucket_error))
+        @*/
+    }
+    impl vstd::std_specs::convert::FromSpecImpl<BucketError> for RuntimeError {
+        open spec fn obeys_from_spec() -> bool { true }
+        open spec fn from_spec(e: BucketError) -> RuntimeError { RuntimeError::ApplicationError(ApplicationError::BucketError(e)) }
+    }
     /*@item radix-engine-interface/src/blueprints/resource/resource.rs :: struct LiquidFungibleResource
     @derive
     @*/
@@ -356,6 +452,8 @@ pub mod unit {
     // (Verus needs the explicit 'static; the value is re-read from /repo on every run)
     pub const FUNGIBLE_BUCKET_BLUEPRINT: &'static str = /*@expr-after radix-engine-interface/src/blueprints/resource/fungible/fungible_bucket.rs :: const FUNGIBLE_BUCKET_BLUEPRINT :: <<&str =>> @*/;
     pub struct FungibleResourceManagerBlueprint;
+    pub struct FungibleVaultBlueprint;
+    pub struct FungibleBucketBlueprint;
     /// opaque: only carried inside ResourceType::NonFungible, which is never built here
     pub struct NonFungibleIdType;
 
@@ -370,26 +468,26 @@ pub mod unit {
     pub open spec fn mintable_amount(attos: int, d: int) -> bool {
         respects_divisibility(attos, d) && attos <= max_mint_attos()
     }
-    pub open spec fn mint_enabled(s: State) -> bool { s.features.contains(FungibleResourceManagerFeature::Mint) }
-    pub open spec fn burn_enabled(s: State) -> bool { s.features.contains(FungibleResourceManagerFeature::Burn) }
+    pub open spec fn mint_enabled(s: State) -> bool { s.features.contains((ACTOR_STATE_SELF, FungibleResourceManagerFeature::Mint)) }
+    pub open spec fn burn_enabled(s: State) -> bool { s.features.contains((ACTOR_STATE_SELF, FungibleResourceManagerFeature::Burn)) }
     /// the resource tracks its total supply
-    pub open spec fn tracks(s: State) -> bool { s.features.contains(FungibleResourceManagerFeature::TrackTotalSupply) }
+    pub open spec fn tracks(s: State) -> bool { s.features.contains((ACTOR_STATE_SELF, FungibleResourceManagerFeature::TrackTotalSupply)) }
     /// well-formed resource manager (established by create_object): a legal divisibility, and the
     /// TotalSupply field exists when the supply is tracked
     pub open spec fn wf(s: State) -> bool {
-        &&& s.fields.contains_key(I_DIV()) && s.fields[I_DIV()] is Divisibility
-        &&& s.fields[I_DIV()]->Divisibility_0 <= 18
-        &&& (tracks(s) ==> s.fields.contains_key(I_SUPPLY()) && s.fields[I_SUPPLY()] is Supply)
+        &&& s.fields.contains_key(F_DIV()) && s.fields[F_DIV()] is Divisibility
+        &&& s.fields[F_DIV()]->Divisibility_0 <= 18
+        &&& (tracks(s) ==> s.fields.contains_key(F_SUPPLY()) && s.fields[F_SUPPLY()] is Supply)
     }
-    pub open spec fn divisibility(s: State) -> int { s.fields[I_DIV()]->Divisibility_0 as int }
+    pub open spec fn divisibility(s: State) -> int { s.fields[F_DIV()]->Divisibility_0 as int }
     /// the recorded total supply, in attos (meaningful when `tracks`)
-    pub open spec fn supply(s: State) -> int { s.fields[I_SUPPLY()]->Supply_0.v() }
+    pub open spec fn supply(s: State) -> int { s.fields[F_SUPPLY()]->Supply_0.v() }
     /// every field except TotalSupply is untouched
-    pub open spec fn frame_supply(f0: Map<FieldIndex, GhostVal>, f1: Map<FieldIndex, GhostVal>) -> bool {
-        f1.remove(I_SUPPLY()) =~= f0.remove(I_SUPPLY())
+    pub open spec fn frame_supply(f0: Map<FieldRef, GhostVal>, f1: Map<FieldRef, GhostVal>) -> bool {
+        f1.remove(F_SUPPLY()) =~= f0.remove(F_SUPPLY())
     }
     /// handles that were open stay open (with the same field / mode)
-    pub open spec fn handles_kept(h0: Map<FieldHandle, (FieldIndex, bool)>, h1: Map<FieldHandle, (FieldIndex, bool)>) -> bool {
+    pub open spec fn handles_kept(h0: Map<FieldHandle, (FieldRef, bool)>, h1: Map<FieldHandle, (FieldRef, bool)>) -> bool {
         forall|h: FieldHandle| h0.contains_key(h) ==> h1.contains_key(h) && h1[h] == h0[h]
     }
     pub open spec fn is_fungible_bucket(o: ObjG) -> bool {
@@ -408,7 +506,7 @@ pub mod unit {
     /// the blueprint-level error a mint of `a` fails with
     pub open spec fn mint_app_error(s: State, a: Decimal) -> FungibleResourceManagerError {
         if !mint_enabled(s) { FungibleResourceManagerError::NotMintable }
-        else if !respects_divisibility(a.v(), divisibility(s)) { FungibleResourceManagerError::InvalidAmount(a, s.fields[I_DIV()]->Divisibility_0) }
+        else if !respects_divisibility(a.v(), divisibility(s)) { FungibleResourceManagerError::InvalidAmount(a, s.fields[F_DIV()]->Divisibility_0) }
         else if a.v() > max_mint_attos() { FungibleResourceManagerError::MaxMintAmountExceeded }
         else { FungibleResourceManagerError::UnexpectedDecimalComputationError }
     }
@@ -449,6 +547,58 @@ pub mod unit {
         RuntimeError::ApplicationError(ApplicationError::FungibleResourceManagerError(e))
     }
 
+    // ---- vault / bucket as the actor --------------------------------------------------------------------
+    /// what can be taken out of a container holding `bal`
+    pub open spec fn take_ok(bal: int, amt: int) -> bool { amt <= bal && in_dec(bal - amt) }
+    /// a fungible container (vault or bucket) of a well-formed resource: a liquid balance, and the resource
+    /// manager's divisibility visible as outer object
+    pub open spec fn wf_container(s: State) -> bool {
+        &&& s.fields.contains_key(C_BAL()) && s.fields[C_BAL()] is Liquid
+        &&& s.fields.contains_key(O_DIV()) && s.fields[O_DIV()] is Divisibility && s.fields[O_DIV()]->Divisibility_0 <= 18
+    }
+    pub open spec fn freezable(s: State) -> bool { s.features.contains((ACTOR_STATE_OUTER_OBJECT, FungibleResourceManagerFeature::VaultFreeze)) }
+    pub open spec fn wf_vault(s: State) -> bool {
+        wf_container(s) && (freezable(s) ==> s.fields.contains_key(V_FREEZE()) && s.fields[V_FREEZE()] is Frozen)
+    }
+    /// the vault is frozen for (some of) the given operations
+    pub open spec fn frozen_for(s: State, flags: VaultFreezeFlags) -> bool {
+        freezable(s) && (s.fields[V_FREEZE()]->Frozen_0.frozen.bits & flags.bits) != 0
+    }
+    /// the container's liquid balance in attos
+    pub open spec fn balance(s: State) -> int { s.fields[C_BAL()]->Liquid_0.v() }
+    pub open spec fn outer_divisibility(s: State) -> int { s.fields[O_DIV()]->Divisibility_0 as int }
+    /// every field except the liquid balance is untouched
+    pub open spec fn frame_balance(f0: Map<FieldRef, GhostVal>, f1: Map<FieldRef, GhostVal>) -> bool {
+        f1.remove(C_BAL()) =~= f0.remove(C_BAL())
+    }
+    /// C03 for a withdrawal: a NEW bucket `b` appears holding exactly what left the container's balance
+    pub open spec fn withdrawn(s0: State, s1: State, b: NodeId, requested: Decimal, strategy: WithdrawStrategy) -> bool {
+        &&& !s0.objects.contains_key(b) && s1.objects.contains_key(b)
+        &&& is_new_bucket(s1.objects[b], s1.objects[b].fields[I_LIQUID()]->Liquid_0)
+        &&& s1.objects == s0.objects.insert(b, s1.objects[b])
+        // conservation: bucket amount == balance decrease
+        &&& balance(s1) == balance(s0) - bucket_amount(s1.objects[b])
+        // never negative, never more than there is, always a legal amount of the resource
+        &&& respects_divisibility(bucket_amount(s1.objects[b]), outer_divisibility(s0))
+        &&& bucket_amount(s1.objects[b]) <= balance(s0)
+        &&& (strategy is Exact ==> bucket_amount(s1.objects[b]) == requested.v())
+        &&& s1.fields.contains_key(C_BAL()) && s1.fields[C_BAL()] is Liquid
+        &&& frame_balance(s0.fields, s1.fields)
+        &&& s1.handles =~= s0.handles
+        &&& s1.features == s0.features
+    }
+    /// C03 for a deposit: bucket `b` is consumed and exactly its amount is added to the container's balance
+    pub open spec fn deposited(s0: State, s1: State, b: NodeId) -> bool {
+        &&& s0.objects.contains_key(b)
+        &&& bucket_locks(s0.objects[b]).dom().len() == 0
+        &&& s1.objects == s0.objects.remove(b)
+        &&& balance(s1) == balance(s0) + bucket_amount(s0.objects[b])
+        &&& s1.fields.contains_key(C_BAL()) && s1.fields[C_BAL()] is Liquid
+        &&& frame_balance(s0.fields, s1.fields)
+        &&& s1.handles =~= s0.handles
+        &&& s1.features == s0.features
+    }
+
     pub proof fn lemma_pow10_bounds(k: nat)
         requires k <= 18
         ensures 1 <= pow(10, k) <= 1_000_000_000_000_000_000
@@ -469,6 +619,24 @@ pub mod unit {
         /*@fn radix-engine-interface/src/blueprints/resource/resource.rs :: impl LiquidFungibleResource :: fn amount
         @sig
             ensures ret == self.amount
+        @*/
+        /*@fn radix-engine-interface/src/blueprints/resource/resource.rs :: impl LiquidFungibleResource :: fn is_empty
+        @sig
+            ensures ret == (self.amount.v() == 0)
+        @*/
+        /*@fn radix-engine-interface/src/blueprints/resource/resource.rs :: impl LiquidFungibleResource :: fn put
+        @sig
+            requires in_dec(old(self).amount.v() + other.amount.v())
+            ensures final(self).amount.v() == old(self).amount.v() + other.amount.v()
+        @*/
+        /*@fn radix-engine-interface/src/blueprints/resource/resource.rs :: impl LiquidFungibleResource :: fn take_by_amount
+        @sig
+            ensures
+                take_ok(old(self).amount.v(), amount_to_take.v()) ==> ret is Ok,
+                ret matches Ok(r) ==> take_ok(old(self).amount.v(), amount_to_take.v())
+                    && r.amount == amount_to_take
+                    && final(self).amount.v() == old(self).amount.v() - amount_to_take.v(),
+                ret matches Err(e) ==> *final(self) == *old(self),
         @*/
     }
     impl LockedFungibleResource {
@@ -708,8 +876,160 @@ pub mod unit {
                 final(api).state().objects == old(api).state().objects,
                 final(api).state().events == old(api).state().events,
                 handles_kept(old(api).state().handles, final(api).state().handles),
-                ret matches Ok(r) ==> r == (ResourceType::Fungible { divisibility: old(api).state().fields[I_DIV()]->Divisibility_0 }),
+                ret matches Ok(r) ==> r == (ResourceType::Fungible { divisibility: old(api).state().fields[F_DIV()]->Divisibility_0 }),
                 ret matches Err(e) ==> !e.is_application_error(),
+        @*/
+    }
+
+    // ==========================================================================================
+    // FungibleVaultBlueprint: take / put (the vault is the actor, the resource manager its outer object)
+    // ==========================================================================================
+    impl FungibleVaultBlueprint {
+        /*@fn radix-engine/src/blueprints/resource/fungible/fungible_vault.rs :: impl FungibleVaultBlueprint :: fn get_divisibility
+        @sig
+            requires wf_container(old(api).state())
+            ensures
+                ret matches Ok(d) ==> d as int == outer_divisibility(old(api).state())
+                    && final(api).state() == (State { handles: final(api).state().handles, ..old(api).state() })
+                    && final(api).state().handles =~= old(api).state().handles,
+                ret is Err ==> final(api).state().fields == old(api).state().fields && final(api).state().objects == old(api).state().objects
+                    && final(api).state().events == old(api).state().events && final(api).state().features == old(api).state().features,
+                handles_kept(old(api).state().handles, final(api).state().handles),
+                ret matches Err(e) ==> !e.is_application_error(),
+        @*/
+        /*@fn radix-engine/src/blueprints/resource/fungible/fungible_vault.rs :: impl FungibleVaultBlueprint :: fn assert_not_frozen
+        @sig
+            requires wf_vault(old(api).state())
+            ensures
+                ret is Ok ==> !frozen_for(old(api).state(), flags) && final(api).state().handles =~= old(api).state().handles,
+                frozen_for(old(api).state(), flags) ==> ret is Err,
+                final(api).state().fields == old(api).state().fields, final(api).state().objects == old(api).state().objects,
+                final(api).state().events == old(api).state().events, final(api).state().features == old(api).state().features,
+                handles_kept(old(api).state().handles, final(api).state().handles),
+        @*/
+        /*@fn radix-engine/src/blueprints/resource/fungible/fungible_vault.rs :: impl FungibleVaultBlueprint :: fn internal_take
+        @sig
+            requires old(api).state().fields.contains_key(C_BAL()), old(api).state().fields[C_BAL()] is Liquid
+            ensures
+                !take_ok(balance(old(api).state()), amount.v()) ==> ret is Err && final(api).state().fields == old(api).state().fields,
+                ret matches Ok(r) ==> take_ok(balance(old(api).state()), amount.v())
+                    && r.amount == amount
+                    && final(api).state().fields.contains_key(C_BAL()) && final(api).state().fields[C_BAL()] is Liquid
+                    && balance(final(api).state()) == balance(old(api).state()) - amount.v()
+                    && frame_balance(old(api).state().fields, final(api).state().fields)
+                    && final(api).state().handles =~= old(api).state().handles,
+                final(api).state().objects == old(api).state().objects, final(api).state().events == old(api).state().events,
+                final(api).state().features == old(api).state().features,
+                handles_kept(old(api).state().handles, final(api).state().handles),
+        @closure 1 := |e: ResourceError| -> (r: RuntimeError) ensures true
+        @*/
+        /*@fn radix-engine/src/blueprints/resource/fungible/fungible_vault.rs :: impl FungibleVaultBlueprint :: fn internal_put
+        @sig
+            requires
+                old(api).state().fields.contains_key(C_BAL()), old(api).state().fields[C_BAL()] is Liquid,
+                in_dec(balance(old(api).state()) + resource.amount.v()),
+            ensures
+                ret is Ok ==> final(api).state().fields.contains_key(C_BAL()) && final(api).state().fields[C_BAL()] is Liquid
+                    && balance(final(api).state()) == balance(old(api).state()) + resource.amount.v()
+                    && frame_balance(old(api).state().fields, final(api).state().fields)
+                    && final(api).state().handles =~= old(api).state().handles,
+                final(api).state().objects == old(api).state().objects, final(api).state().events == old(api).state().events,
+                final(api).state().features == old(api).state().features,
+                handles_kept(old(api).state().handles, final(api).state().handles),
+        @*/
+
+        /*@fn radix-engine/src/blueprints/resource/fungible/fungible_vault.rs :: impl FungibleVaultBlueprint :: fn take_advanced
+        @sig
+            requires wf_vault(old(api).state())
+            ensures
+                ret matches Ok(b) ==> !frozen_for(old(api).state(), VaultFreezeFlags::WITHDRAW)
+                    && withdrawn(old(api).state(), final(api).state(), b.0.0, *amount, withdraw_strategy)
+                    && final(api).state().events == old(api).state().events.push(EventG::Withdraw(final(api).state().objects[b.0.0].fields[I_LIQUID()]->Liquid_0)),
+                // a vault frozen for withdrawals gives nothing
+                frozen_for(old(api).state(), VaultFreezeFlags::WITHDRAW) ==> ret is Err
+                    && final(api).state().fields == old(api).state().fields && final(api).state().objects == old(api).state().objects,
+        @*/
+        /*@fn radix-engine/src/blueprints/resource/fungible/fungible_vault.rs :: impl FungibleVaultBlueprint :: fn take
+        @sig
+            requires wf_vault(old(api).state())
+            ensures
+                ret matches Ok(b) ==> !frozen_for(old(api).state(), VaultFreezeFlags::WITHDRAW)
+                    && withdrawn(old(api).state(), final(api).state(), b.0.0, *amount, WithdrawStrategy::Exact)
+                    && final(api).state().events == old(api).state().events.push(EventG::Withdraw(*amount)),
+                frozen_for(old(api).state(), VaultFreezeFlags::WITHDRAW) ==> ret is Err
+                    && final(api).state().fields == old(api).state().fields && final(api).state().objects == old(api).state().objects,
+        @*/
+        /*@fn radix-engine/src/blueprints/resource/fungible/fungible_vault.rs :: impl FungibleVaultBlueprint :: fn put
+        @sig
+            requires
+                wf_vault(old(api).state()),
+                old(api).state().objects.contains_key(bucket.0.0) ==> is_fungible_bucket(old(api).state().objects[bucket.0.0])
+                    && in_dec(balance(old(api).state()) + bucket_amount(old(api).state().objects[bucket.0.0])),
+            ensures
+                ret is Ok ==> !frozen_for(old(api).state(), VaultFreezeFlags::DEPOSIT)
+                    && deposited(old(api).state(), final(api).state(), bucket.0.0)
+                    && final(api).state().events == old(api).state().events.push(EventG::Deposit(old(api).state().objects[bucket.0.0].fields[I_LIQUID()]->Liquid_0)),
+                // a vault frozen for deposits takes nothing
+                frozen_for(old(api).state(), VaultFreezeFlags::DEPOSIT) ==> ret is Err
+                    && final(api).state().fields == old(api).state().fields && final(api).state().objects == old(api).state().objects,
+        @*/
+    }
+
+    // ==========================================================================================
+    // FungibleBucketBlueprint: take / put (the bucket is the actor)
+    // ==========================================================================================
+    impl FungibleBucketBlueprint {
+        /*@fn radix-engine/src/blueprints/resource/fungible/fungible_bucket.rs :: impl FungibleBucketBlueprint :: fn get_divisibility
+        @sig
+            requires wf_container(old(api).state())
+            ensures
+                ret matches Ok(d) ==> d as int == outer_divisibility(old(api).state())
+                    && final(api).state() == (State { handles: final(api).state().handles, ..old(api).state() })
+                    && final(api).state().handles =~= old(api).state().handles,
+                ret is Err ==> final(api).state().fields == old(api).state().fields && final(api).state().objects == old(api).state().objects
+                    && final(api).state().events == old(api).state().events && final(api).state().features == old(api).state().features,
+                handles_kept(old(api).state().handles, final(api).state().handles),
+                ret matches Err(e) ==> !e.is_application_error(),
+        @*/
+        /*@fn radix-engine/src/blueprints/resource/fungible/fungible_bucket.rs :: impl FungibleBucketBlueprint :: fn internal_take
+        @sig
+            requires old(api).state().fields.contains_key(C_BAL()), old(api).state().fields[C_BAL()] is Liquid
+            ensures
+                !take_ok(balance(old(api).state()), amount.v()) ==> ret is Err && final(api).state().fields == old(api).state().fields,
+                ret matches Ok(r) ==> take_ok(balance(old(api).state()), amount.v())
+                    && r.amount == amount
+                    && final(api).state().fields.contains_key(C_BAL()) && final(api).state().fields[C_BAL()] is Liquid
+                    && balance(final(api).state()) == balance(old(api).state()) - amount.v()
+                    && frame_balance(old(api).state().fields, final(api).state().fields)
+                    && final(api).state().handles =~= old(api).state().handles,
+                final(api).state().objects == old(api).state().objects, final(api).state().events == old(api).state().events,
+                final(api).state().features == old(api).state().features,
+                handles_kept(old(api).state().handles, final(api).state().handles),
+        @closure 1 := |e: ResourceError| -> (r: RuntimeError) ensures true
+        @*/
+        /*@fn radix-engine/src/blueprints/resource/fungible/fungible_bucket.rs :: impl FungibleBucketBlueprint :: fn take_advanced
+        @sig
+            requires wf_container(old(api).state())
+            ensures
+                ret matches Ok(b) ==> withdrawn(old(api).state(), final(api).state(), b.0.0, amount, withdraw_strategy)
+                    && final(api).state().events == old(api).state().events,
+        @*/
+        /*@fn radix-engine/src/blueprints/resource/fungible/fungible_bucket.rs :: impl FungibleBucketBlueprint :: fn take
+        @sig
+            requires wf_container(old(api).state())
+            ensures
+                ret matches Ok(b) ==> withdrawn(old(api).state(), final(api).state(), b.0.0, amount, WithdrawStrategy::Exact)
+                    && final(api).state().events == old(api).state().events,
+        @*/
+        /*@fn radix-engine/src/blueprints/resource/fungible/fungible_bucket.rs :: impl FungibleBucketBlueprint :: fn put
+        @sig
+            requires
+                wf_container(old(api).state()),
+                old(api).state().objects.contains_key(bucket.0.0) ==> is_fungible_bucket(old(api).state().objects[bucket.0.0])
+                    && in_dec(balance(old(api).state()) + bucket_amount(old(api).state().objects[bucket.0.0])),
+            ensures
+                ret is Ok ==> deposited(old(api).state(), final(api).state(), bucket.0.0)
+                    && final(api).state().events == old(api).state().events,
         @*/
     }
 
